@@ -306,8 +306,21 @@ def pred(line, out):
     return None
 
 
+def _vsock_component():
+    # connection level: the M3 model vs the real VirtualSocket on the shared generators plus the transmit-side
+    # scenarios of C05 (bulk transfer, SACK, RTO, path limits), and the connection-level predicates
+    from . import vsock_common, c05, c10
+
+    def g(rng, tier):
+        return vsock_common.gen(rng, tier) + c05.gen_targeted(rng.fork("tx"), 160 if tier == "quick" else 3000) + \
+            c10.gen_hostile(rng.fork("hostile"), tier)[:300 if tier == "quick" else 100000]
+    c = vsock_common.component("c14_datagram_ok+c14_segments_ok", name="vsock_mtu")
+    c["gen"] = g
+    return c
+
+
 COMPONENTS = [{"name": "mtu", "gen": gen, "gen_around": gen_around, "nontrivial": nontrivial,
-               "classify": classify, "pred": pred}]
+               "classify": classify, "pred": pred}, _vsock_component()]
 
 
 # ---------------------------------------------------------------- known findings
